@@ -7,7 +7,7 @@ use crate::contracts::tokens::TokBase;
 use crate::examples::fungible_merkle_airdrop::AirdropContract;
 use crate::report::Report;
 use crate::rng::Rng;
-use crate::world::{invoke, tag, Fail, World};
+use crate::world::{Must, invoke, tag, Fail, World};
 use crate::Cfg;
 use sha2::Digest;
 use soroban_sdk::xdr::ToXdr;
@@ -320,7 +320,7 @@ fn distributor(cfg: &Cfg, rep: &mut Report, h: u64, variant: u32) {
             rep.op(format!("ledger -> {t}"));
             rep.count("ledger_moves");
             for x in 0..20u32 {
-                let g: bool = invoke(e, &c, "is_claimed", args!(e, x)).unwrap();
+                let g: bool = invoke(e, &c, "is_claimed", args!(e, x)).must("is_claimed");
                 rep.check("ref", g == claimed.contains(&x), &format!("C17/ref/{vname}/claimed-flag-after-ledger-move"), || format!("after moving to ledger {t}: is_claimed({x}) = {g}, model {}", claimed.contains(&x)));
             }
         }
@@ -360,7 +360,7 @@ fn distributor(cfg: &Cfg, rep: &mut Report, h: u64, variant: u32) {
             _ => (idx, usr, amt, vec![]),
         };
         let genuine = kind == "valid" || (kind == "zero-amount" && amt == 0) || (kind == "proof-of-other-index" && proofs[j] == proofs[i] && recs.len() == 1) || (kind == "empty-proof" && recs.len() == 1);
-        let before: Vec<bool> = (0..20u32).map(|x| invoke::<bool>(e, &c, "is_claimed", args!(e, x)).unwrap()).collect();
+        let before: Vec<bool> = (0..20u32).map(|x| invoke::<bool>(e, &c, "is_claimed", args!(e, x)).must("is_claimed")).collect();
         e.mock_all_auths();
         let got: Result<(), Fail> = invoke(e, &c, "claim", args!(e, pidx, users[pusr], pamt, to_vec(e, &proof)));
         rep.evaluations += 1;
@@ -377,7 +377,7 @@ fn distributor(cfg: &Cfg, rep: &mut Report, h: u64, variant: u32) {
             claimed.insert(pidx);
             paid[pusr] += pamt;
         }
-        let after: Vec<bool> = (0..20u32).map(|x| invoke::<bool>(e, &c, "is_claimed", args!(e, x)).unwrap()).collect();
+        let after: Vec<bool> = (0..20u32).map(|x| invoke::<bool>(e, &c, "is_claimed", args!(e, x)).must("is_claimed")).collect();
         for x in 0..20u32 {
             rep.check("ref", after[x as usize] == claimed.contains(&x), &format!("C17/ref/{vname}/is_claimed"), || format!("is_claimed({x}) = {}, model {}", after[x as usize], claimed.contains(&x)));
         }
@@ -386,7 +386,7 @@ fn distributor(cfg: &Cfg, rep: &mut Report, h: u64, variant: u32) {
         }
         if variant == 3 {
             for uix in 0..6 {
-                let b: i128 = invoke(e, &token, "balance", args!(e, users[uix])).unwrap();
+                let b: i128 = invoke(e, &token, "balance", args!(e, users[uix])).must("balance");
                 rep.check("ref", b == paid[uix], "C17/ref/airdrop-example/payout", || format!("user {uix} holds {b}, sum of its successful claims {}", paid[uix]));
             }
         }
